@@ -28,4 +28,23 @@ theorem pow2_test_dvd (r al : ℕ) (h0 : 1 ≤ r) (h1 : r &&& (r - 1) = 0) (h2 :
 theorem int_mod_add (x y b : ℤ) (h₁ : x % b = 0) (h₂ : y % b = 0) : (x + y) % b = 0 :=
   Int.emod_eq_zero_of_dvd (dvd_add (Int.dvd_of_emod_eq_zero h₁) (Int.dvd_of_emod_eq_zero h₂))
 
+/-- INSTANCE `multiples-gap`: two multiples of P > 0 that differ, differ by at least P -/
+theorem int_multiples_gap (x y P : ℤ) (hP : 0 < P) (hx : x % P = 0) (hy : y % P = 0) (h : y < x) : y + P ≤ x := by
+  obtain ⟨a, rfl⟩ := Int.dvd_of_emod_eq_zero hx
+  obtain ⟨b, rfl⟩ := Int.dvd_of_emod_eq_zero hy
+  have hab : b < a := by
+    by_contra hc
+    push Not at hc
+    have : P * a ≤ P * b := Int.mul_le_mul_of_nonneg_left hc (le_of_lt hP)
+    omega
+  have : P * (b + 1) ≤ P * a := Int.mul_le_mul_of_nonneg_left (by omega) (le_of_lt hP)
+  rw [mul_add, mul_one] at this
+  exact this
+
+/-- INSTANCE `pow2-succ`: 2^(m+1) = 2 * 2^m -/
+theorem pow2_succ (m : ℕ) : (2 : ℤ) ^ (m + 1) = 2 * 2 ^ m := by ring
+
+/-- INSTANCE `pow2-add`: 2^(a+b) = 2^a * 2^b -/
+theorem pow2_add (a b : ℕ) : (2 : ℤ) ^ (a + b) = 2 ^ a * 2 ^ b := by ring
+
 end Verif
